@@ -559,6 +559,14 @@ class Verifier:
         if cls.max_paths:
             ip.max_paths = cls.max_paths
         ip.no_contract = {(cls.file, cls.qualname)} | {k for k in self.contracts if k[1] in cls.inline_callees}
+        # contracts of callees that hold for THIS caller only (e.g. an assumed contract specialised to the kind of
+        # object the caller passes): they replace the registered ones while this function is verified
+        over = getattr(cls, "callee_contracts", None) or {}
+        if over:
+            merged = dict(self.contracts)
+            merged.update(over)
+            self.contracts = merged
+            ip.contracts = merged
         st0 = I.State()
         st0.frames.append(I.Frame(f, {}))
         self.init_ghost(st0)
